@@ -67,6 +67,7 @@ def new_exec(p: Program) -> ObjExec:
     ex.func_hooks["ext:np.atleast_2d"] = lambda ex_, e, args, kw: args[0] if isinstance(args[0], Arr) and args[0].ndim == 2 else Arr([list(args[0].data)], 2) \
         if isinstance(args[0], Arr) else Arr([[args[0]]], 2)
     ex.func_hooks["ext:np.array"] = ex.func_hooks["ext:np.asarray"] = lambda ex_, e, args, kw: ex_.to_array(args[0], e)
+    ex.func_hooks["ext:np.atleast_1d"] = lambda ex_, e, args, kw: (Arr([args[0].data], 1) if args[0].ndim == 0 else args[0]) if isinstance(args[0], Arr) else Arr([args[0]], 1)
 
     def is_close(ex_: Any, e: Any, args: list, kw: dict) -> bool:
         a, b = args[0], args[1]
